@@ -10,13 +10,12 @@ Local Open Scope Z_scope.
 
 Inductive cls :=
 | CUnknownKey      (* unknown keys are skipped, the reply is OK *)
-| CSentDateTab     (* net/mail.ParseDate: a Date: value with a horizontal tab between its parts is not parsed *)
-| CQuotedSpace.   (* the command line is split with strings.Fields and re-joined: runs of blanks / tabs inside a quoted string collapse *)
+| CNoOther.       (* (no other class is left) *)
 
 Definition cls_eqb (a b : cls) : bool :=
   match a, b with
-  | CUnknownKey, CUnknownKey | CSentDateTab, CSentDateTab
-  | CQuotedSpace, CQuotedSpace => true
+  | CUnknownKey, CUnknownKey
+  | CNoOther, CNoOther => true
   | _, _ => false
   end.
 
@@ -75,22 +74,13 @@ Definition mb_ok (mb : list smsg) : bool :=
   && Spec.SeqSet.ascendingb (map s_uid mb) && forallb (fun m => 0 <? s_uid m) mb.
 
 (** ** classes *)
-(** the first Date: field of some message has a horizontal tab inside its (trimmed) value *)
-Definition date_has_tab (m : smsg) : bool :=
-  match field_values (s_text m) (S_ "Date") with
-  | v :: _ => existsb (Ascii.eqb tab) (trim_space v)
-  | [] => false
-  end.
-Definition sent_class (mb : list smsg) : option cls := if existsb date_has_tab mb then Some CSentDateTab else None.
-
 (** keys other than NOT / OR / parenthesised lists *)
 Definition simple_class (k : key) (mb : list smsg) : option cls :=
   match k with
   | KAll => None
   | KHas _ | KUn _ | KNew | KKeyword _ | KUnkeyword _ => None   (* whole-flag comparison since fix 378938d *)
   | KSeq _ | KUid _ => None                                    (* RFC 3501 sets since fix 32751d9 *)
-  | KHdr _ _ | KHeader _ _ | KBody _ | KText _ | KLarger _ | KSmaller _ | KDate false _ _ => None   (* proved since the header / sent-date fixes *)
-  | KDate true _ _ => sent_class mb
+  | KHdr _ _ | KHeader _ _ | KBody _ | KText _ | KLarger _ | KSmaller _ | KDate _ _ _ => None   (* proved since the header / sent-date fixes *)
   | KUnknown _ => Some CUnknownKey
   | KGroup _ | KNot _ | KOr _ _ => None                        (* see key_class *)
   end.
@@ -119,8 +109,7 @@ Fixpoint classify (ks : list key) (mb : list smsg) : option cls :=
   | k :: ks' => match key_class k mb with None => classify ks' mb | c => c end
   end.
 
-(** the command line level (connection.go: parts := strings.Fields(line), HandleSearch: strings.Join(parts[start:], " ")) *)
-Definition fields_stable (s : str) : bool := str_eqb (join (fields s) [sp]) s.
-Definition classify_line (ks : list key) (mb : list smsg) : option cls :=
-  if fields_stable (print_prog ks) then classify ks mb else Some CQuotedSpace.
-(** UID SEARCH runs the same evaluator: the same classes *)
+(** the command line level: connection.go splits the line with utils.SplitCommandLine
+    (fix 2599345: a quoted string is one field, its blanks survive) and
+    SearchSelectedMailbox re-joins the fields with single blanks; no class of its own *)
+Definition classify_line (ks : list key) (mb : list smsg) : option cls := classify ks mb.
